@@ -18,7 +18,8 @@ PID = "C14"
 RULE = (
     "all programs over leaves {D: memref.copy, C: linalg.generic, S: dart.operation (compute), O: test.op using the induction variables, B: snax.cluster_sync_op} "
     "with <= N nodes nested in scf.for / scf.if (with and without else), depth <= 2, adjacent and separated; x nb_cores in {2,3,4} x every core id x trip "
-    "counts {0,1,2} x branch outcomes. distinct = distinct (program, nb_cores, per-core traces); non-trivial = program has a dispatchable op"
+    "counts {0,1,2} x branch outcomes; snax_xdma streaming regions (add / mul, rescale i32->i8 / i8->i32 = extension kernels, rescale i32->i32 / i8->i8 = not) in "
+    "3-node programs; two-block functions; private functions and helpers. distinct = distinct (program, nb_cores, per-core traces); non-trivial = program has a dispatchable op"
 )
 ASSUMPTIONS = [
     "core model: every core executes the whole function; snax_cluster_core_idx() returns the core id; DM core = nb_cores-1, compute core = 0 (the rule in dispatch_regions.py)",
@@ -51,6 +52,11 @@ XDMA1 = ('"dart.operation"({i}, {o}) <{{patterns = [affine_map<(d0) -> (d0)>, af
 
 def leaf_emit(leaf, tag, ivs):
     k = leaf[0]
+    if k in ("V", "U"):
+        # snax_xdma rescale with the operand type of an extension kernel but another result type (i32 -> i32, i8 -> i8): no extension provides it
+        if k == "V":
+            return XDMA1.format(i="%a", o="%b", t=tag, ti="i32", to="i32").split("\n")
+        return XDMA1.format(i="%d8", o="%d8", t=tag, ti="i8", to="i8").split("\n")
     if k in ("Z", "W"):
         # snax_xdma rescale down (i32 -> i8) / up (i8 -> i32): both are extension kernels (data-mover core)
         if k == "Z":
@@ -85,6 +91,8 @@ def space(tier):
     # a slice with snax_xdma streaming ops
     g4 = ST.Grammar([("X", "a", "b"), ("Y", "a", "b"), ("Z",), ("W",), ("C", "b", "c"), ("O",)], controls=("FOR", "IF"), max_depth=2)
     progs += [p for p in g4.programs(3) if ST.count(p, lambda s: s[0] in ("X", "Y", "Z", "W")) >= 1]
+    g5 = ST.Grammar([("V",), ("U",), ("Z",), ("C", "b", "c")], controls=("FOR", "IF"), max_depth=2)
+    progs += [p for p in g5.programs(3) if ST.count(p, lambda s: s[0] in ("V", "U")) >= 1]
     cases = [(p, n, None) for p in progs for n in b["cores"]]
     # two-block functions (cf.br): every split point of every program with <= 4 top-level-visible nodes and >= 2 top-level statements
     g3 = ST.Grammar(leaves, controls=("FOR", "IF"), max_depth=1)
@@ -115,6 +123,8 @@ def to_variant(text, how):
     return text[:k] + entry + text[k:]
 
 
+# the kernels the xDMA extensions document (operation, operand types + result types): only these are data movement
+XDMA_EXTENSION_KERNELS = {("kernel.add", ("i32", "i32", "i32")), ("kernel.rescale", ("i32", "i8")), ("kernel.rescale", ("i8", "i32"))}
 KIND = {"memref.copy": "D", "linalg.generic": "C", "dart.operation": "C", "test.op": "O", "snax.cluster_sync_op": "B"}
 
 
@@ -127,7 +137,8 @@ def run(mod, fname, args, core):
         kind = KIND[name]
         if name == "dart.operation" and op.accelerator.data == "snax_xdma":
             kop = op.body.block.first_op.body.block.first_op
-            kind = "D" if kop.name in ("kernel.add", "kernel.rescale") else "O"
+            sig = (kop.name, tuple(str(t) for t in list(kop.operand_types) + list(kop.result_types)))
+            kind = "D" if sig in XDMA_EXTENSION_KERNELS else "O"
         vals = tuple(it.get(o) for o in op.operands if kind == "O" and name == "test.op")
         ev.append((kind, ident.value.data if ident is not None else None, vals))
         return [0 for _ in op.results]
